@@ -422,6 +422,7 @@ theorem inv_step (st : Store H) (op : Op) (hinv : Inv st) (ha : Admissible st op
         rw [← hf']; exact hfile
       · exact ⟨hw, hd, hf⟩
   | saveFail => exact ⟨hw, hd, hf⟩
+  | loadFail => exact ⟨hw, hd, hf⟩
   | load =>
     simp only [step]
     split
@@ -541,6 +542,7 @@ theorem fileSync_step (st : Store H) (op : Op) (hk : st.kind = .file) (h : FileS
     · exact ⟨⟨dumpAll st.items, rfl, rfl⟩, rfl⟩
     · exact ⟨h, hk⟩
   | saveFail => exact ⟨h, hk⟩
+  | loadFail => exact ⟨h, hk⟩
   | load =>
     simp only [step, hk]
     cases hf : st.file with
@@ -657,6 +659,7 @@ theorem saved_step (sg : Store H × List Dump) (op : Op) (h : sg.1.savedHash = h
       · simp only [hc, Bool.false_eq_true, if_false]
         simpa [changed] using hc
   | saveFail => exact h
+  | loadFail => exact h
   | load =>
     cases hk : st.kind with
     | memory => simpa [gstep, marks, step, hk] using h
@@ -687,6 +690,17 @@ theorem changed_iff (hinj : ∀ a b, hash a = hash b → a = b) (k : Kind) (ops 
   constructor
   · intro h heq; exact h (by rw [heq])
   · intro h heq; exact h (hinj _ _ heq).symm
+
+/-- a load that the storage rejects (file not JSON, not a storage model, unsupported version)
+    leaves the stored objects, their identity, the saved mark and the file exactly as they were:
+    every theorem above about `run`/`grun` histories therefore holds for histories containing
+    rejected loads at any position (they are `Op`s of those histories). -/
+theorem rejected_load_inert (st : Store H) : step hash st .loadFail = (st, .unit) := rfl
+
+/-- … in particular `changed` and a later reload are the ones of the history without it. -/
+theorem rejected_load_transparent (st : Store H) (ops : List Op) :
+    (Op.loadFail :: ops).foldl (fun s o => (step hash s o).1) st = ops.foldl (fun s o => (step hash s o).1) st := by
+  simp only [List.foldl_cons, rejected_load_inert]
 
 end SaveLoad
 
